@@ -96,4 +96,19 @@ def hasBigNumber (root : DNode) : Bool :=
         && Rel.Wrap.hasBigNumber (Rel.parse v true).tree
     | _, _ => false
 
+/-! ### finding F-C07-10 (open): a line of the formatter's output that starts with `#` -/
+
+/-- a line after the first of the formatter's output starts, after leading spaces / tabs, with `#`:
+    `rebuild_value` writes it as a continuation line, which reads back as a comment -/
+def hashLine (out : Str) : Bool :=
+  ((Text.splitOn '\n' out).drop 1).any fun l => (l.dropWhile isIndent).head? == some '#'
+
+/-- the formatter is called on this entry and its output has such a line -/
+def entryHashLine (f : Str → Str → Str) (e : DNode) : Bool :=
+  match entryKey e, fmtArg e with
+  | some k, some v => hashLine (f k v)
+  | _, _ => false
+
+def paraHashLine (f : Str → Str → Str) (p : DNode) : Bool := (entries p).any (entryHashLine f)
+
 end Deb822Verif.Ctl
